@@ -192,11 +192,11 @@ def _work_cli(job):
         cli.cleanup(d)
 
 
-def pool_map(fn, jobs, procs=16):
+def pool_map(fn, jobs, procs=16, chunksize=None):
     if not jobs:
         return []
     with mp.get_context("fork").Pool(procs) as p:
-        return p.map(fn, jobs, chunksize=max(1, len(jobs) // (procs * 8)))
+        return p.map(fn, jobs, chunksize=chunksize or max(1, len(jobs) // (procs * 8)))
 
 
 _SHARED = None
